@@ -863,4 +863,42 @@ example : exSysR.s.locks[0]? = some false ∧ exSysR.s.locks[1]? = some false
     ∧ sysStep exSysR (.start { t := 3, e := 3 }) = .ok (exRAt 1)
     ∧ (exRAt 1).jobs.map (fun j => j.picked.length) = [2] := by decide +kernel
 
+/-! ## 8. Engine instances are separate objects
+
+The model's engine instance is the pair (engine type, index).  `create_engines` builds, per engine
+name, `min(count, workers)` instances one after the other; seen as object identities handed out by a
+fresh counter this is `engineIds`, and distinct (type, index) pairs are distinct objects.  That the
+real `create_engines` behaves like this (no aliasing of one object over several slots) is checked by
+the tie on the real `def_globals` with turtlemd engines (`C03:engine-objects-aliased`,
+`C03:engine-object-shared`). -/
+
+/-- object identities of the instances: `sizes[k]` fresh ids for engine type `k`, counter from `next` -/
+def engineIds : Nat → List Nat → List (List Nat)
+  | _, [] => []
+  | next, m :: rest => List.range' next m :: engineIds (next + m) rest
+
+theorem engineIds_flatten : ∀ (sizes : List Nat) (next : Nat),
+    (engineIds next sizes).flatten = List.range' next sizes.sum := by
+  intro sizes
+  induction sizes with
+  | nil => intro next; simp [engineIds]
+  | cons m rest ih =>
+    intro next
+    simp only [engineIds, List.flatten_cons, ih, List.sum_cons]
+    rw [List.range'_append_1]
+
+/-- one instance slot per requested instance, and all instances of all types are pairwise distinct objects -/
+theorem engine_objects_distinct (sizes : List Nat) :
+    (engineIds 0 sizes).map List.length = sizes ∧ ((engineIds 0 sizes).flatten).Nodup := by
+  constructor
+  · suffices h : ∀ (sz : List Nat) (next : Nat), (engineIds next sz).map List.length = sz from h sizes 0
+    intro sz
+    induction sz with
+    | nil => intro next; rfl
+    | cons m rest ih => intro next; simp [engineIds, ih]
+  · rw [engineIds_flatten]
+    exact List.nodup_range'
+
+example : engineIds 0 [3, 2] = [[0, 1, 2], [3, 4]] := by decide
+
 end Infretis.C03
